@@ -35,27 +35,28 @@ type Session struct {
 	Table Table
 	Ad    Adapter
 
-	lastBackup *Obs
-	NoAt       bool // recovered hub: no real instants are known, only "now" queries are asked
-	relaxFull  *Obs // crash during compaction: the full feed may lie between this (before) and the expected (after)
-	jobAdded   map[int]bool
-	sink       *jobs.VerifSink
-	Answers    []stepAns // answers of steps that have one of their own, in order
-	bm         *server.BackupManager
-	bmWorldGen int
-	Variant    int // per-behaviour variant selector (flush thresholds etc.)
-	clock      int
-	after      []int64           // after[k]: a real instant at which the spec clock was k
-	commit     map[int]int64     // commit[k]: real commit time of the write that moved the clock to k
-	ids        map[string]uint64 // abstract entity -> internal id (learned from writes)
-	tokens     map[int]uint64    // reader id -> real token
-	msSrc      source.Source     // MultiSource of the job while its first (full) run is read page by page
-	msTok      string            // its continuation token, encoded as the pipeline stores it
-	cursors    []relCursor       // relationship queries whose first page was served before the last step
-	Divs       []Divergence
-	Checks     int // number of compared answers
-	Skipped    int // queries not asked (outside what the reference defines)
-	NonTriv    bool
+	lastBackup  *Obs
+	NoAt        bool // recovered hub: no real instants are known, only "now" queries are asked
+	relaxFull   *Obs // crash during compaction: the full feed may lie between this (before) and the expected (after)
+	jobAdded    map[int]bool
+	sink        *jobs.VerifSink
+	Answers     []stepAns // answers of steps that have one of their own, in order
+	bm          *server.BackupManager
+	bmWorldGen  int
+	Variant     int // per-behaviour variant selector (flush thresholds etc.)
+	clock       int
+	after       []int64           // after[k]: a real instant at which the spec clock was k
+	commit      map[int]int64     // commit[k]: real commit time of the write that moved the clock to k
+	ids         map[string]uint64 // abstract entity -> internal id (learned from writes)
+	tokens      map[int]uint64    // reader id -> real token
+	msSrc       source.Source     // MultiSource of the job while its first (full) run is read page by page
+	msTok       string            // its continuation token, encoded as the pipeline stores it
+	cursors     []relCursor       // relationship queries whose first page was served before the last step
+	listCursors []listCursor      // entity listings whose first page was served before the last step
+	Divs        []Divergence
+	Checks      int // number of compared answers
+	Skipped     int // queries not asked (outside what the reference defines)
+	NonTriv     bool
 }
 
 func NewSession(w *World, h *Header, tag string, table Table, ad Adapter) *Session {
@@ -215,12 +216,37 @@ type relCursor struct {
 	cont  []*server.RelatedFrom
 }
 
+// A listCursor is an entity listing (pages of one) started before the last step of the behaviour.
+type listCursor struct {
+	ds    string
+	first []CEntity
+	tok   string
+}
+
 // openCursors serves the first pages.  Only before a maintenance step that does not move the clock (the
 // continuation answers as of the instant of the first page; the specification's answers for that instant in
 // the final state are then the ones of its current instant).
 func (s *Session) openCursors(last *Step) {
-	s.cursors = nil
-	if !s.H.HasKind("rel") || s.Ad.Name() != "go" {
+	s.cursors, s.listCursors = nil, nil
+	if s.Ad.Name() != "go" {
+		return
+	}
+	// entity listings paged across a step that changes no latest view (maintenance of any dataset)
+	if s.H.HasKind("ent") {
+		switch last.A {
+		case "gc", "compact", "lsm", "restart", "dup":
+			for _, n := range s.H.Ds {
+				if s.W.Dsm.GetDataset(s.DsReal(n)) == nil {
+					continue
+				}
+				pg, tok, err := s.Ad.Entities(s, s.DsReal(n), "", 1)
+				if err == nil && len(pg) == 1 {
+					s.listCursors = append(s.listCursors, listCursor{ds: n, first: pg, tok: tok})
+				}
+			}
+		}
+	}
+	if !s.H.HasKind("rel") {
 		return
 	}
 	switch last.A {
@@ -253,6 +279,32 @@ func (s *Session) openCursors(last *Step) {
 // checkCursors follows the continuations in the final state: nothing they return may be missing from the
 // answer the specification gives for the same query now (the scope reduced to the datasets that still exist).
 func (s *Session) checkCursors(o *Obs) error {
+	// listings: first page before the step + the continued pages after it = the listing the reference requires now
+	em := o.EntMap()
+	for _, c := range s.listCursors {
+		expEl, live := em[c.ds]
+		if !live || !contains(o.Names, c.ds) {
+			continue
+		}
+		exp := s.expectItems(expEl)
+		all := append([]CEntity{}, c.first...)
+		tok := c.tok
+		for i := 0; i < len(exp)+3; i++ {
+			pg, next, err := s.Ad.Entities(s, s.DsReal(c.ds), tok, 1)
+			if err != nil {
+				return err
+			}
+			if len(pg) == 0 {
+				break
+			}
+			all = append(all, pg...)
+			tok = next
+		}
+		s.Checks++
+		if !sameBag(exp, all) {
+			s.diverge("entities-continued", map[string]any{"ds": c.ds, "paged": "first page before the last step, continuation after it"}, exp, all, "")
+		}
+	}
 	if len(s.cursors) == 0 {
 		return nil
 	}
